@@ -204,6 +204,26 @@ func (c *Ctx) FnOrAbsorber(pkgSuffix, name string) *ssa.Function {
 	if f := c.fnExact(pkgSuffix, name); f != nil {
 		return f
 	}
+	if !strings.HasPrefix(name, "(") {
+		// a free function that became a method of its first parameter's type (canon.go)
+		path := repoMod + "/" + pkgSuffix
+		if pkgSuffix == "" {
+			path = repoMod
+		}
+		if gFuncAsMethod[path+"."+name] {
+			var found *ssa.Function
+			n := 0
+			for fn := range c.AllFuncs {
+				if fn.Parent() == nil && fn.Name() == name && pkgOf(fn) == path && fn.Signature.Recv() != nil && fn.Blocks != nil {
+					found = fn
+					n++
+				}
+			}
+			if n == 1 {
+				return found
+			}
+		}
+	}
 	if c.refSyms == nil {
 		return nil
 	}
